@@ -2019,6 +2019,9 @@ class AllConnGraph(nx.DiGraph):
         else:
             src_indices = pinfo.src_indices
             src_shape = pinfo.src_shape
+            if src_indices is not None:
+                # the indexer is reused by every setup: go back to the shape given to promotes()
+                src_indices.set_src_shape(src_shape)
 
         self.check_add_edge(group, src, tgt, src_indices=src_indices)
 
@@ -2042,6 +2045,11 @@ class AllConnGraph(nx.DiGraph):
         allprocs_discrete_out = group._var_allprocs_discrete['output']
 
         for prom_tgt, (prom_src, src_indices) in manual_connections.items():
+            if src_indices is not None:
+                # an indexer given to connect() outside of setup is reused by every setup, so
+                # forget the source shape of the previous one (the source may have been resized)
+                src_indices.set_src_shape(None)
+
             src_io = resolver.get_iotype(prom_src)
             if src_io is None:
                 guesses = get_close_matches(prom_src, list(resolver.prom_iter('output')) +
